@@ -26,6 +26,7 @@ EXPLANATION = (
     "re-points every term (of input and of output variables) and loads every block; copy() neither writes to the original nor calls a "
     "state-writing method on one of its components (effect summaries over the call graph); no numpy in-place interface is applied to "
     "a value a function on the processing path was handed (H10)"
+    "; no attribute holds a value copy.deepcopy hands over as it is - a weak reference, a closure over an object, a partial application (H4 deepcopy-atomic); an activation object used before does what a new one does (A-sem history-free)"
 )
 ASSUMPTIONS = [
     "numpy and copy.deepcopy are deterministic; two runs of pure code on equal inputs give identical floats",
@@ -418,6 +419,58 @@ def _local_container(f, name: str) -> bool:
     return False
 
 
+def scan_deepcopy_atomic(tree: ast.Module) -> list[tuple[int, str]]:
+    """Stores into attributes of values that copy.deepcopy hands over as they are - weak references, and functions / partial applications that
+    close over an object - so that the copy of an engine would go on referring to a part of the original: (line, what)."""
+    weak_names: set[str] = set()
+    weak_modules: set[str] = set()
+    partial_names: set[str] = set()
+    for n in ast.walk(tree):
+        if isinstance(n, ast.Import):
+            for a in n.names:
+                if a.name == "weakref":
+                    weak_modules.add(a.asname or a.name)
+        if isinstance(n, ast.ImportFrom) and n.module == "weakref":
+            weak_names |= {a.asname or a.name for a in n.names}
+        if isinstance(n, ast.ImportFrom) and n.module == "functools":
+            partial_names |= {a.asname or a.name for a in n.names if a.name in ("partial", "partialmethod")}
+    out: list[tuple[int, str]] = []
+
+    def is_weak(c: ast.AST) -> bool:
+        return isinstance(c, ast.Call) and ((isinstance(c.func, ast.Attribute) and isinstance(c.func.value, ast.Name) and c.func.value.id in weak_modules)
+                                            or (isinstance(c.func, ast.Name) and c.func.id in weak_names))
+
+    def is_partial(c: ast.AST) -> bool:
+        return isinstance(c, ast.Call) and ((isinstance(c.func, ast.Attribute) and c.func.attr in ("partial", "partialmethod") and isinstance(c.func.value, ast.Name)
+                                             and c.func.value.id == "functools") or (isinstance(c.func, ast.Name) and c.func.id in partial_names))
+
+    for f in ast.walk(tree):
+        if not isinstance(f, (ast.FunctionDef, ast.AsyncFunctionDef)):
+            continue
+        bound = {a.arg for a in f.args.posonlyargs + f.args.args + f.args.kwonlyargs} | {t.id for s_ in ast.walk(f) for t in ast.walk(s_) if isinstance(t, ast.Name) and isinstance(t.ctx, ast.Store)}
+        nested = {d.name: d for d in ast.walk(f) if isinstance(d, (ast.FunctionDef, ast.Lambda)) and d is not f and isinstance(d, ast.FunctionDef)}
+        for s_ in ast.walk(f):
+            if not isinstance(s_, (ast.Assign, ast.AnnAssign)) or s_.value is None:
+                continue
+            targets = s_.targets if isinstance(s_, ast.Assign) else [s_.target]
+            if not any(isinstance(t, ast.Attribute) for t in targets):
+                continue
+            v = s_.value
+            if isinstance(v, ast.IfExp):  # `x if c else None`
+                v = v.body if not (isinstance(v.body, ast.Constant) and v.body.value is None) else v.orelse
+            if any(is_weak(x) for x in ast.walk(v)):
+                out.append((s_.lineno, f"`{ast.unparse(s_)[:70]}` stores a weak reference"))
+            elif isinstance(v, ast.Lambda) or (isinstance(v, ast.Name) and v.id in nested):
+                body = v if isinstance(v, ast.Lambda) else nested[v.id]
+                own = {a.arg for a in body.args.posonlyargs + body.args.args + body.args.kwonlyargs}
+                free = {x.id for x in ast.walk(body) if isinstance(x, ast.Name) and isinstance(x.ctx, ast.Load)} - own
+                if free & bound:
+                    out.append((s_.lineno, f"`{ast.unparse(s_)[:70]}` stores a function that closes over {sorted(free & bound)}"))
+            elif is_partial(v) and any(isinstance(a, (ast.Attribute, ast.Name)) and not (isinstance(a, ast.Name) and a.id not in bound) for a in v.args):
+                out.append((s_.lineno, f"`{ast.unparse(s_)[:70]}` stores a partial application over an object"))
+    return out
+
+
 def copy_rules(check: Check) -> None:
     p = check.program
     fn = p.func("Engine.copy")
@@ -455,6 +508,12 @@ def copy_rules(check: Check) -> None:
         hooks += [(mod.relpath, l, w) for l, w in scan_copy_hooks(mod.tree)]
         defaults += [(mod.relpath, l, w) for l, w in scan_mutable_defaults(mod.tree)]
         shared += [(mod.relpath, l, o, nme) for l, o, nme in scan_shared_mutables(mod.tree)]
+    atomic = [(mod.relpath, l, w) for mod in p.modules.values() for l, w in scan_deepcopy_atomic(mod.tree)]
+    for rel, l, w in atomic:
+        check.violation("H4", f"deepcopy-atomic/{rel}:{w.split('`')[1][:40]}", f"{w}: copy.deepcopy hands such a value over as it is, so the copy of an engine keeps referring to "
+                        "(a part of) the original - it follows the original's inputs, or breaks once the original is gone", f"{rel}:{l}")
+    if not atomic:
+        check.ok("H4", "package/deepcopy-atomic", "no attribute holds a weak reference, a closure over an object or a partial application (values deepcopy does not copy)")
     for rel, l, w in hooks:
         check.violation("H4", f"copy-hook/{w}", f"{w} customises copying: deepcopy of an engine may share or drop state", f"{rel}:{l}")
     if not hooks:
@@ -749,6 +808,8 @@ def fixtures(check: Check) -> None:
     defaults = scan_mutable_defaults(tree)
     shared = scan_shared_mutables(tree)
     writes = [w for _, _, nme in shared for w in scan_writes_to(tree, nme)]
-    if len(hooks) < 2 or len(defaults) < 2 or len(shared) < 2 or len(writes) < 2:
-        raise AnalysisError(f"positive fixture for H4 no longer matches (hooks={len(hooks)}, defaults={len(defaults)}, shared={len(shared)}, writes={len(writes)})")
+    atomic = scan_deepcopy_atomic(tree)
+    if len(hooks) < 2 or len(defaults) < 2 or len(shared) < 2 or len(writes) < 2 or len(atomic) != 4:
+        raise AnalysisError(f"positive fixture for H4 no longer matches (hooks={len(hooks)}, defaults={len(defaults)}, shared={len(shared)}, writes={len(writes)}, "
+                            f"deepcopy-atomic={len(atomic)} of 4)")
     check.ok("H4", "fixture/shared-state", f"positive fixture matched {len(hooks)} hooks, {len(defaults)} mutable defaults, {len(writes)} shared writes")
